@@ -139,6 +139,30 @@ func c02Geometry(bounds []int64, size int64) []geo {
 			out = append(out, g)
 		}
 	}
+	// magnitudes: offsets at 32/62/63/64-bit limits (far beyond the end of every object but the sparse one) and the
+	// largest limits the property admits (< 2^31), the latter only where the answer stays small
+	for _, o := range []uint64{1<<31 - 1, 1 << 31, 1<<32 - 1, 1 << 32, 1<<32 + 1, 1 << 62, 1<<63 - 1, 1 << 63, 1<<64 - 1} {
+		for _, n := range []uint32{0, 1, 2048, 65537} {
+			g := geo{o, n}
+			if !seen[g] {
+				seen[g] = true
+				out = append(out, g)
+			}
+		}
+	}
+	if size <= 200000 {
+		for _, o := range []int64{0, 1, size - 1, size} {
+			for _, n := range []uint32{1<<31 - 1, 1 << 30, 1<<24 + 1} {
+				if o >= 0 {
+					g := geo{uint64(o), n}
+					if !seen[g] {
+						seen[g] = true
+						out = append(out, g)
+					}
+				}
+			}
+		}
+	}
 	for _, o := range offs {
 		for _, n := range []int64{0, 1, 2, 2047, 2048, 2049, 65536, 65537} {
 			add(o, n)
